@@ -274,14 +274,15 @@ def get_blocks_charge(a) -> Sequence[Sequence[int]]:
     In case of product of abelian symmetries, for each block the individual symmetry
     charges are flattened into a single tuple.
     """
-    return a.struct.t
+    nsym = a.config.sym.NSYM
+    return tuple(tuple(x for k in a.trans for x in t[k * nsym: (k + 1) * nsym]) for t in a.struct.t)
 
 
 def get_blocks_shape(a) -> Sequence[Sequence[int]]:
     """
     Shapes of all native blocks.
     """
-    return a.struct.D
+    return tuple(tuple(D[k] for k in a.trans) for D in a.struct.D)
 
 
 def get_shape(a, axes=None, native=False) ->  int | Sequence[int]:
